@@ -112,6 +112,15 @@ check("C06", "DESIGN.md 5/C06",
       "Trusted: gamma/alpha of the materializer family. hashed() is treated as an opaque factor without nulls (rows, index and drop set are "
       "compared, not its cells).")
 
+check("C07", "DESIGN.md 5/C07",
+      "TLA+ model of pooled evaluation over the parts of a structured formula (MC_Missing: one drop set for all parts, "
+      "AloneEqualsJoint theorem) model-checked in TLC; exhaustive replay of structured formulas",
+      "TLC proves for every structured formula x null pattern x policy x caller set in the bound that all parts share the kept rows and "
+      "that each part equals the part built alone with the joint drop set; the real code is run on every case: nested shape of the result "
+      "and of its model_spec, rows and cells of each part against the model, the separately built part, and regeneration of each part by "
+      "its own spec, for the three outputs.",
+      "Trusted: gamma/alpha of the materializer family; the mirror of the 7 structured formulas between MC_Missing and the harness.")
+
 NOT_YET = "check not yet built in this round (planned; see DESIGN.md section 5)"
 
 
